@@ -947,7 +947,7 @@ Qed.
 Lemma ttf_ov b :
   take_trailing_fragments (ovb b) =
   (ovb (fst (take_trailing_fragments b)), snd (take_trailing_fragments b)).
-Proof. unfold take_trailing_fragments. oprj. destruct (word_is_empty (wword b)); reflexivity. Qed.
+Proof. rewrite !ttf_eq. reflexivity. Qed.
 
 Lemma wb_add_element_ov b e : wb_add_element (ovb b) e = ovb (wb_add_element b e).
 Proof. destruct e as [s t|n]; cbn [wb_add_element]; [destruct s|]; reflexivity. Qed.
@@ -2223,10 +2223,9 @@ Lemma flush_rn x : NI x -> rn NI (flush_wrapping x).
 Proof.
   intros H. unfold flush_wrapping. destruct (wrapping x) as [w|] eqn:E; [|exact H].
   assert (Hw : ovf w) by (destruct H as [_ H]; rewrite E in H; exact H).
-  unfold take_trailing_fragments. 
-  assert (Hw1 : ovf (fst (if word_is_empty (wword w) then (set_word w [] (wordlen w), wword w) else (w, [])))).
-  { destruct (word_is_empty (wword w)); exact Hw. }
-  destruct (if word_is_empty (wword w) then (set_word w [] (wordlen w), wword w) else (w, [])) as [w1 frags].
+  assert (Hw1 : ovf (fst (take_trailing_fragments w))).
+  { rewrite ttf_eq. exact Hw. }
+  destruct (take_trailing_fragments w) as [w1 frags].
   cbn [fst] in Hw1.
   eapply rn_bind; [apply wb_into_lines_rn, Hw1|]. intros ls _. cbn [rn].
   pose proof (NI_extend_lines (map RText ls) _ (NI_none x H)) as H1.
